@@ -859,3 +859,90 @@ V("C20", "rlimit-unavailable-on-freebsd", BSD,
   "fires:C20.R7")
 V("C20", "benign-bsd-map-and-c-consistent", BSD,
   ("    read_io_count=12,\n    write_io_count=13,", "    read_io_count=12,\n    write_io_count=13,  # unchanged"), "silent")
+
+# ----------------------------------------------------------------- C17
+UC = "psutil/arch/linux/users.c"
+PC = "psutil/arch/linux/proc.c"
+DC = "psutil/arch/linux/disk.c"
+NC = "psutil/arch/linux/net.c"
+XC = "psutil/_psutil_posix.c"
+CC = "psutil/_psutil_common.c"
+V("C17", "defect-F16-returns", UC,
+  ("        py_username = PyUnicode_DecodeFSDefaultAndSize(\n            ut->ut_user, strnlen(ut->ut_user, sizeof(ut->ut_user)));",
+   "        py_username = PyUnicode_DecodeFSDefault(ut->ut_user);"), "fires:C17.R2")
+V("C17", "defect-F14-returns", PC,
+  ("    if (ioclass < 0 || ioclass > 7 ||\n            iodata < 0 || iodata > (int)IOPRIO_PRIO_MASK) {\n        PyErr_SetString(PyExc_ValueError, \"invalid ioclass or iodata value\");\n        return NULL;\n    }\n",
+   ""), "fires:C17.R4")
+V("C17", "utmp-bound-from-other-field", UC,
+  ("            ut->ut_line, strnlen(ut->ut_line, sizeof(ut->ut_line)));",
+   "            ut->ut_line, strnlen(ut->ut_line, sizeof(ut->ut_host)));"), "fires:C17.R2")
+V("C17", "format-long-for-int", "psutil/arch/linux/mem.c",
+  ("        \"(kkkkkkI)\",", "        \"(kkkkkkk)\","), "fires:C17.R1")
+V("C17", "format-missing-unit", UC,
+  ("            \"OOOd\" _Py_PARSE_PID,", "            \"OOO\" _Py_PARSE_PID,"), "fires:C17.R1")
+V("C17", "parse-int-into-long", PC,
+  ("    int ioprio, ioclass, iodata;\n    int retval;", "    int ioprio, iodata;\n    long ioclass;\n    int retval;"),
+  "fires:C17.R1")
+V("C17", "strncpy-wrong-size", NC,
+  ("    PSUTIL_STRNCPY(ifr.ifr_name, nic_name, sizeof(ifr.ifr_name));", "    PSUTIL_STRNCPY(ifr.ifr_name, nic_name, sizeof(ifr));"),
+  "fires:C17.R3")
+V("C17", "mac-buffer-small", XC,
+  ("    char buf[NI_MAXHOST];\n    int err;\n    int addrlen;", "    char buf[64];\n    int err;\n    int addrlen;"),
+  "fires:C17.R3")
+V("C17", "errmsg-buffer-small", CC,
+  ("NoSuchProcess(const char *syscall) {\n    PyObject *exc;\n    char msg[1024];", "NoSuchProcess(const char *syscall) {\n    PyObject *exc;\n    char msg[32];"),
+  "fires:C17.R3")
+V("C17", "mntent-leak-on-error", DC,
+  ("error:\n    if (file != NULL)\n        endmntent(file);\n", "error:\n"), "fires:C17.R6")
+V("C17", "socket-leak", NC,
+  ("    py_retlist = Py_BuildValue(\"[ii]\", duplex, speed);\n    if (!py_retlist)\n        goto error;\n    close(sock);\n    return py_retlist;",
+   "    py_retlist = Py_BuildValue(\"[ii]\", duplex, speed);\n    if (!py_retlist)\n        goto error;\n    return py_retlist;"),
+  "fires:C17.R6")
+V("C17", "users-slots-swapped", UC,
+  ("            py_username,              // username\n            py_tty,                   // tty", "            py_tty,                   // tty\n            py_username,              // username"),
+  "fires:C17.R7")
+V("C17", "partitions-filter-inverted", L,
+  ("        if not all:\n            if not device or fstype not in fstypes:\n                continue",
+   "        if all:\n            if not device or fstype not in fstypes:\n                continue"), "fires:C17.R7")
+V("C17", "partitions-unpack-order", L,
+  ("        device, mountpoint, fstype, opts = partition", "        device, fstype, mountpoint, opts = partition"),
+  "fires:C17.R7")
+
+# ----------------------------------------------------------------- C18
+V("C18", "level-range-widened", L,
+  ("            if value < 0 or value > 7:", "            if value < 0 or value > 8:"), "fires:C18.R1")
+V("C18", "idle-level-accepted", L,
+  ("            if value and ioclass in {\n                IOPriority.IOPRIO_CLASS_IDLE,\n                IOPriority.IOPRIO_CLASS_NONE,\n            }:",
+   "            if value and ioclass in {\n                IOPriority.IOPRIO_CLASS_NONE,\n            }:"), "fires:C18.R1")
+V("C18", "validation-after-native", L,
+  ("            if value < 0 or value > 7:\n                msg = \"value not in 0-7 range\"\n                raise ValueError(msg)\n            return cext.proc_ioprio_set(self.pid, ioclass, value)",
+   "            ret = cext.proc_ioprio_set(self.pid, ioclass, value)\n            if value < 0 or value > 7:\n                msg = \"value not in 0-7 range\"\n                raise ValueError(msg)\n            return ret"),
+  "fires:C18.R1")
+V("C18", "rlimit-pair-check-dropped", L,
+  ("                    if len(limits) != 2:", "                    if len(limits) > 2:"), "fires:C18.R1")
+V("C18", "level-without-class-accepted", I,
+  ("                if value is not None:\n                    msg = \"'ioclass' argument must be specified\"\n                    raise ValueError(msg)\n",
+   ""), "fires:C18.R1")
+V("C18", "affinity-empty-all-cpus", I,
+  ("                if not cpus:\n                    if hasattr(self._proc, \"_get_eligible_cpus\"):", "                if cpus is None:\n                    if hasattr(self._proc, \"_get_eligible_cpus\"):"),
+  "fires:C18.R1")
+V("C18", "affinity-diagnosis-dropped", L,
+  ("                        if cpu not in eligible_cpus:", "                        if False:"), "fires:C18.R1")
+V("C18", "ionice-get-swapped", L,
+  ("            return _common.pionice(ioclass, value)", "            return _common.pionice(value, ioclass)"), "fires:C18.R3")
+V("C18", "nice-get-ppid", L,
+  ("        return cext_posix.getpriority(self.pid)", "        return cext_posix.getpriority(self._ppid or self.pid)"),
+  "fires:C18.R3")
+V("C18", "ioprio-unpack-shift", PC,
+  ("#define IOPRIO_PRIO_CLASS(mask) ((mask) >> IOPRIO_CLASS_SHIFT)", "#define IOPRIO_PRIO_CLASS(mask) ((mask) >> 12)"),
+  "fires:C18.R2")
+V("C18", "ioprio-mask-off-by-one", PC,
+  ("#define IOPRIO_PRIO_MASK ((1UL << IOPRIO_CLASS_SHIFT) - 1)", "#define IOPRIO_PRIO_MASK ((1UL << IOPRIO_CLASS_SHIFT))"),
+  "fires:C18.R2")
+V("C18", "affinity-guard-dropped", PC,
+  ("        if (ncpus > INT_MAX / 2) {\n            PyErr_SetString(PyExc_OverflowError, \"could not allocate \"\n                            \"a large enough CPU set\");\n            return NULL;\n        }\n",
+   ""), "fires:C18.R4")
+V("C18", "affinity-no-free", PC,
+  ("        CPU_FREE(mask);\n        if (errno != EINVAL)", "        if (errno != EINVAL)"), "fires:C18.R4")
+V("C18", "getpriority-errno-not-cleared", XC,
+  ("    int priority;\n    errno = 0;\n", "    int priority;\n"), "fires:C18.R4")
